@@ -154,7 +154,7 @@ def build_prop(pid, variant="", want_fuzz=False, quiet=True):
     flags = BASEFLAGS + san + vflags + ["-I", os.path.join(REPO, "include"), "-I", cfginc, "-I", os.path.join(VERIF, "harness"),
                                        "-include", os.path.join(VERIF, "harness", "common", "st_hook.h")]
     srcs = harness_sources(pid)
-    key = file_hash(tree_files(os.path.join(REPO, "include")) + [os.path.join(cfginc, "st_config.h")] + srcs, " ".join(flags) + REPO + eng["engine"] + BUILD_VERSION)
+    key = file_hash(tree_files(os.path.join(REPO, "include")) + [os.path.join(cfginc, "st_config.h")] + srcs, " ".join(flags + spec.get("ldflags", [])) + REPO + eng["engine"] + BUILD_VERSION)
     tag = pid + ("-" + variant if variant else "") + ALT_TAG
     d = os.path.join(BUILD, "prop-%s-%s" % (tag, key))
     binp = os.path.join(d, "prop")
@@ -169,10 +169,10 @@ def build_prop(pid, variant="", want_fuzz=False, quiet=True):
     src = srcs[0]   # prop_<pid>.cpp
     jobs = []
     if not os.path.exists(binp):
-        jobs.append(("prop", [CXX] + flags + [src, eng["engine_tsan" if tsan else "engine"], "-lrapidcheck", "-lpthread", "-o", binp]))
+        jobs.append(("prop", [CXX] + flags + [src, eng["engine_tsan" if tsan else "engine"], "-lrapidcheck", "-lpthread"] + spec.get("ldflags", []) + ["-o", binp]))
     if want_fuzz and not os.path.exists(fuzzp):
         fz = [("-fsanitize=fuzzer,address,undefined" if f.startswith("-fsanitize=address") else f) for f in flags]
-        jobs.append(("fuzz", [CXX] + fz + [src, eng["fuzz"], "-o", fuzzp]))
+        jobs.append(("fuzz", [CXX] + fz + [src, eng["fuzz"]] + spec.get("ldflags", []) + ["-o", fuzzp]))
     procs = [(n, j, subprocess.Popen(j, stdout=subprocess.PIPE, stderr=subprocess.STDOUT, text=True)) for n, j in jobs]
     for n, j, p in procs:
         out, _ = p.communicate()
@@ -196,7 +196,8 @@ def run_parallel(cmds, timeout):
             e = dict(os.environ)
             e.update(env)
             p = subprocess.Popen(argv, stdout=subprocess.PIPE, stderr=subprocess.STDOUT, env=e, preexec_fn=_die_with_parent)
-            running.append((name, Watched(p)))
+            base = argv[argv.index("--replay-out") + 1] if "--replay-out" in argv else None
+            running.append((name, Watched(p, base)))
         still = []
         for name, w in running:
             r = w.poll(0.2 / max(1, len(running)) + 0.01)
@@ -251,14 +252,16 @@ def _cpu_ticks(pid):
         return None
 
 
+LINGER_S = 40       # a process that has already written its .crash/.hang case file but is still alive after this long is killed
 STALL_S = 45        # a process that is alive but has consumed no CPU time at all for this long is blocked (deadlock), not slow
 STALL_MARK = "\n   why: stalled: the process stayed alive for %d s without consuming any CPU time (every thread blocked - a deadlock, e.g. inside the race reporter)\n" % STALL_S
 
 
 class Watched:
     """A child process observed for CPU progress.  poll() returns None while running, else (returncode, output)."""
-    def __init__(self, p):
+    def __init__(self, p, case_base=None):
         self.p = p; self.ticks = _cpu_ticks(p.pid); self.since = time.time(); self.stalled = False; self.killed_at = None
+        self.case_base = case_base; self.saved_at = None
     def poll(self, wait=0.2):
         try:
             out, _ = self.p.communicate(timeout=wait)
@@ -269,6 +272,13 @@ class Watched:
         except subprocess.TimeoutExpired:
             pass
         now = time.time()
+        # a process that has saved its failing case (sanitizer death callback / watchdog) but does not manage to exit - e.g. its other
+        # threads keep spinning while the reporter holds a lock - is stopped; the saved case is what gets replayed
+        if self.case_base and self.saved_at is None and (os.path.exists(self.case_base + ".crash") or os.path.exists(self.case_base + ".hang")):
+            self.saved_at = now
+        if self.saved_at is not None and now - self.saved_at > LINGER_S:
+            self.p.kill()
+            return None
         t = _cpu_ticks(self.p.pid)
         if t is not None and t != self.ticks:
             self.ticks = t; self.since = now
